@@ -588,6 +588,9 @@ func (sc *ServerConfig) UDPRelay(logger *zap.Logger, maxClientPackerHeadroom zer
 
 	switch sc.Protocol {
 	case "direct":
+		if sc.TunnelUDPTargetOnly && !sc.TunnelRemoteAddress.IsIP() {
+			return nil, errors.New("tunnelUDPTargetOnly requires tunnelRemoteAddress to be an IP address")
+		}
 		natServer = direct.NewDirectUDPNATServer(sc.TunnelRemoteAddress, sc.TunnelUDPTargetOnly)
 
 	case "tproxy":
